@@ -27,6 +27,10 @@ claimed = {
          "Bounds: lines <=5 (thorough 7) bytes, bodies <=5-6 (7) bytes, field values <=4 (5) bytes, saddr up to 49 hex digits with 12 symbolic; ASCII only; regexp, fmt, strconv.Parse* are engine summaries validated by native replay of sampled paths."),
  "C04": ("Lines 'type=T msg=audit(S.mmm:N): body' are assembled from symbolic digit bytes (expected values by Horner construction, not by parsing) and a symbolic/hostile body; ParseLogLine and Parse must return exactly T, S, mmm (UTC), N and the trimmed text, ToMapStr must report the header keys whatever the body says; malformed headers (over-range or signed sequence, non-digit bytes, empty fields, every truncation) must give an error and no message.",
          "Bounds: 6 named types + all unnamed codes <1000 or >=2600 (quick), all 65536 codes (thorough); seconds 1-11 digits < 2^34, ms 3 digits, sequence 1-10 digits < 2^32, all digits symbolic; body <=3 (6) symbolic ASCII bytes + 5 hostile concrete bodies. strconv.Parse*/Format*, fmt, regexp and time.Time.String are engine summaries."),
+ "C12": ("Records are assembled by a harness-side re-implementation of the kernel's encoding rule (quoted if all bytes safe, upper-case hex otherwise; struct sockaddr as hex) around symbolic byte values and parsed by the real Parse/Data: the decoded field must equal the original bytes for exe, cwd, name, proctitle (NUL->space), cmd, TTY data, acct, EXECVE arguments, IPv4/IPv6/unix socket addresses; plain fields unchanged with only the placeholders dropped; result/unset-id/errno/arch/syscall derivations.",
+         "Bounds: values of 1-3 (thorough 4) symbolic bytes over 0x01..0xFF, execve 2x2, unix path 3 bytes, IPv6 with 3 symbolic address bytes; known finding C12-single-quote-inside-msg (fields nested in msg='...')."),
+ "C20": ("Record types: String/GetAuditMessageType and MarshalText/UnmarshalText round trip for a symbolic 16-bit code (one path per table entry plus the unnamed codes through the UNKNOWN[n] text path); errno, architecture, per-arch syscall tables and the rule package's field/operator/comparison/reverse tables checked entry by entry by running the real lookups on the real tables.",
+         "Tables are finite data: the check is a case split per entry; the solver's part is the 16-bit type domain. The normalisation-table clauses (normalizations.yaml) are not yet covered (YAML decoding is reflection; planned via a table image)."),
 }
 props=[json.loads(l)['id'] for l in open('/verif/properties.jsonl')]
 checks=[]
